@@ -1153,7 +1153,10 @@ const c19Rule = "codec: random variant value trees (21 primitive kinds with boun
 	"insertion-ordered value text; non-trivial = container, string, binary or decimal (or any malformed input). " +
 	"shredding: random shredding schemas (none/primitive/list/object, depth <= 3, 19 leaf types) x rows aimed at the schema " +
 	"(matches, type mismatches, residual and missing fields, decimals around the precision bound) x 6 write paths, each file " +
-	"read through 4 read paths; distinct by schema + write path + row texts; non-trivial = the column has a typed_value"
+	"read through 4 read paths; the same with the variant column below repeated / repeated-repeated / optional / optional-repeated " +
+	"ancestors (several occurrences per row, LIST and object-with-LIST typed_value, first occurrence an array of >= 2 elements, " +
+	"with and without null/empty ancestors; 5 write x 4 read paths); distinct by schema + write path + row texts; " +
+	"non-trivial = the column has a typed_value or sits below an optional/repeated ancestor"
 
 func RunC19Codec(ctx *core.Ctx) {
 	ctx.SetRule(c19Rule)
